@@ -94,7 +94,13 @@ class QCircuitEnhanced(QCircuit):
 
     def add_ancilla(self, name=None, is_free=True):
         """Add an ancilla qubit"""
-        i = self.add_qubit(name if name else f"anc_{len(self.ancilla_lst)}")
+        if not name:
+            # a qubit of the function may already be called anc_<k>
+            k = len(self.ancilla_lst)
+            while f"anc_{k}" in self.qubit_map:
+                k += 1
+            name = f"anc_{k}"
+        i = self.add_qubit(name)
         self.ancilla_lst.add(i)
         if is_free:
             self.free_ancilla_lst.add(i)
